@@ -283,7 +283,11 @@ class ReduceWindowSumPlugin(PrimitiveLeafPlugin):
         operand_producer_getter = getattr(operand_val, "producer", None)
         if callable(operand_producer_getter):
             operand_producer = operand_producer_getter()
-        abs_input_pattern = getattr(operand_producer, "op_type", "") == "Abs"
+        # only the standard operator: an @onnx_function may be called "Abs" too
+        abs_input_pattern = (
+            getattr(operand_producer, "op_type", "") == "Abs"
+            and (getattr(operand_producer, "domain", "") or "") == ""
+        )
         use_lppool = (
             opset >= 22
             and abs_input_pattern
